@@ -1,92 +1,177 @@
 package trzsz
 
+// C15 — a directory sent as one archive stream is reconstructed exactly.
+// The real archive reader produces the stream from a source tree in the stub FS / sandbox; the real archive writer
+// consumes it under an independent segmentation; trees, contents, read sizes and write cuts are solver variables.
+
 import "io"
 
-func verifNondetByte() byte
-func verifNondetBool() bool
-func verifNondetRange(lo, hi int) int
-func verifAssume(bool)
-func verifAssert(bool, string)
-func verifReach(string)
-func verifFSAddFile(path string, content []byte)
-func verifFSAddDir(path string)
-func verifFSContent(path string) []byte
-func verifFSKind(path string) int
-func verifFSOpenHandles() int
+type zzSink15 struct{}
 
-type zzNop struct{}
+func (zzSink15) Write(p []byte) (int, error) { return len(p), nil }
 
-func (zzNop) Write(p []byte) (int, error) { return len(p), nil }
+type zzEntry15 struct {
+	name    string
+	isDir   bool
+	content []byte
+}
 
-func zzH_C15_roundtrip() {
-	names := []string{"a", "b", "c"}
-	verifFSAddDir("/s/d")
-	verifFSAddDir("/dst")
-	files := []*sourceFile{{PathID: 0, AbsPath: "/s/d", RelPath: []string{"d"}, IsDir: true}}
-	var contents [][]byte
-	var isDir []bool
-	for _, nm := range names {
+// zzTree15 declares a source directory "d" with E entries (each a sub-directory or a file of 0..S symbolic bytes).
+func zzTree15(sroot string) ([]*sourceFile, []zzEntry15) {
+	names := []string{"a", "b", "c", "e", "f"}
+	verifFSAddDir(sroot)
+	verifFSAddDir(sroot + "/d")
+	files := []*sourceFile{{PathID: 0, AbsPath: sroot + "/d", RelPath: []string{"d"}, IsDir: true}}
+	var ents []zzEntry15
+	for i := 0; i < verifBound("E"); i++ {
+		nm := names[i]
 		if verifNondetBool() {
-			verifFSAddDir("/s/d/" + nm)
-			files = append(files, &sourceFile{PathID: 0, AbsPath: "/s/d/" + nm, RelPath: []string{"d", nm}, IsDir: true})
-			contents = append(contents, nil)
-			isDir = append(isDir, true)
+			verifFSAddDir(sroot + "/d/" + nm)
+			files = append(files, &sourceFile{PathID: 0, AbsPath: sroot + "/d/" + nm, RelPath: []string{"d", nm}, IsDir: true})
+			ents = append(ents, zzEntry15{nm, true, nil})
 			continue
 		}
-		n := verifNondetRange(0, 2)
+		n := verifNondetRange(0, verifBound("S"))
 		c := make([]byte, n)
-		for i := range c {
-			c[i] = verifNondetByte()
+		for j := range c {
+			c[j] = verifNondetByte()
 		}
-		verifFSAddFile("/s/d/"+nm, c)
-		files = append(files, &sourceFile{PathID: 0, AbsPath: "/s/d/" + nm, RelPath: []string{"d", nm}, Size: int64(n)})
-		contents = append(contents, c)
-		isDir = append(isDir, false)
+		verifFSAddFile(sroot+"/d/"+nm, c)
+		files = append(files, &sourceFile{PathID: 0, AbsPath: sroot + "/d/" + nm, RelPath: []string{"d", nm}, Size: int64(n)})
+		ents = append(ents, zzEntry15{nm, false, c})
 	}
-	snd := newTransfer(zzNop{}, nil, false, nil)
+	return files, ents
+}
+
+func zzSrcRoot15(root string) string { return root[:len(root)-4] + "src" }
+
+func zzH_C15_roundtrip() {
+	root := verifFSRoot()
+	sroot := zzSrcRoot15(root)
+	files, ents := zzTree15(sroot)
+	verifFSBegin()
+	snd := newTransfer(zzSink15{}, nil, false, nil)
 	snd.transferConfig.Protocol = 4
 	snd.transferConfig.Directory = true
 	arch := snd.archiveSourceFiles(files)
-	verifAssert(len(arch) == 1 && len(arch[0].SubFiles) == 3, "archive grouping")
+	verifAssert(len(arch) == 1, "archive grouping: one top-level entry per source path")
+	verifAssert(len(arch[0].SubFiles) == len(ents), "archive grouping: every entry below its top-level path")
 	rd, err := snd.newArchiveReader(arch[0])
-	verifAssert(err == nil, "newArchiveReader")
-	rcv := newTransfer(zzNop{}, nil, false, nil)
+	verifAssert(err == nil, "newArchiveReader error")
+
+	// producer: one read size for the run (solver's choice), or one size per call
+	var stream []byte
+	perCall := verifBound("PERCALL") != 0
+	rsize := verifNondetRange(1, verifBound("R"))
+	eof := false
+	for k := 0; k < 100000; k++ {
+		if perCall {
+			rsize = verifNondetRange(1, verifBound("R"))
+		}
+		p := make([]byte, rsize)
+		n, err := rd.Read(p)
+		verifAssert(n <= rsize, "reader: n > len(p)")
+		verifAssert(verifFSOpenHandles() <= 1, "reader holds more than one source file open")
+		stream = append(stream, p[:n]...)
+		if err == io.EOF {
+			eof = true
+			break
+		}
+		verifAssert(err == nil, "reader error")
+	}
+	verifAssert(eof, "reader did not reach EOF")
+	rd.Close()
+	verifAssert(verifFSOpenHandles() == 0, "reader left a source file open after Close")
+	verifAssert(int64(len(stream)) == rd.getSize(), "announced size differs from the bytes produced")
+
+	// consumer: independent segmentation
+	rcv := newTransfer(zzSink15{}, nil, false, nil)
 	rcv.transferConfig.Protocol = 4
 	rcv.transferConfig.Directory = true
 	top := &sourceFile{PathID: 0, RelPath: []string{"d"}, IsDir: true, Archive: true}
-	w, _, err := rcv.createDirOrFile("/dst", top, false)
-	verifAssert(err == nil && w != nil, "archive writer")
-	total := int64(0)
-	psize := verifNondetRange(1, 3)
-	for k := 0; k < 40; k++ {
-		p := make([]byte, psize)
-		n, err := rd.Read(p)
-		if n > 0 {
-			total += int64(n)
-			verifAssert(writeAll(w, p[:n]) == nil, "write error")
-			verifAssert(verifFSOpenHandles() <= 2, "writer holds more than one file open")
+	w, _, err := rcv.createDirOrFile(root, top, false)
+	verifAssert(err == nil, "archive writer error")
+	verifAssert(w != nil, "no archive writer")
+	wsize := verifNondetRange(1, verifBound("W"))
+	for pos := 0; pos < len(stream); {
+		if perCall {
+			wsize = verifNondetRange(1, verifBound("W"))
 		}
-		if err == io.EOF {
-			break
+		end := pos + wsize
+		if end > len(stream) {
+			end = len(stream)
 		}
-		verifAssert(err == nil, "read error")
+		verifAssert(writeAll(w, stream[pos:end]) == nil, "write error")
+		verifAssert(verifFSOpenHandles() <= 1, "writer holds more than one file open")
+		pos = end
 	}
-	rd.Close()
 	w.Close()
-	verifAssert(total == rd.getSize(), "announced size differs from bytes produced")
-	verifAssert(verifFSKind("/dst/d") == 2, "top dir")
-	for i, nm := range names {
-		if isDir[i] {
-			verifAssert(verifFSKind("/dst/d/"+nm) == 2, "dir entry")
+	verifAssert(verifFSOpenHandles() == 0, "handles left open after Close")
+
+	verifAssert(verifFSKind(root+"/d") == 2, "top-level directory missing")
+	for _, e := range ents {
+		p := root + "/d/" + e.name
+		if e.isDir {
+			verifAssert(verifFSKind(p) == 2, "directory entry missing")
 			continue
 		}
-		verifAssert(verifFSKind("/dst/d/"+nm) == 1, "file entry")
-		got := verifFSContent("/dst/d/" + nm)
-		verifAssert(len(got) == len(contents[i]), "file length")
-		for j := range contents[i] {
-			verifAssert(got[j] == contents[i][j], "file content")
+		verifAssert(verifFSKind(p) == 1, "file entry missing")
+		got := verifFSContent(p)
+		verifAssert(len(got) == len(e.content), "file length")
+		for j := range e.content {
+			verifAssert(got[j] == e.content[j], "file content")
 		}
 	}
-	verifAssert(verifFSOpenHandles() == 0, "handles left open after Close")
 	verifReach("archive")
+}
+
+// a source file whose real length differs from the scanned size: shorter => error, never shifted entries
+func zzH_C15_shrink() {
+	root := verifFSRoot()
+	sroot := zzSrcRoot15(root)
+	verifFSAddDir(sroot)
+	verifFSAddDir(sroot + "/d")
+	n := verifNondetRange(1, verifBound("S"))
+	delta := verifNondetRange(-1, 1)
+	real := n + delta
+	c := make([]byte, real)
+	for j := range c {
+		c[j] = verifNondetByte()
+	}
+	verifFSAddFile(sroot+"/d/a", c)
+	verifFSAddFile(sroot+"/d/b", []byte{'B'})
+	files := []*sourceFile{
+		{PathID: 0, AbsPath: sroot + "/d", RelPath: []string{"d"}, IsDir: true},
+		{PathID: 0, AbsPath: sroot + "/d/a", RelPath: []string{"d", "a"}, Size: int64(n)},
+		{PathID: 0, AbsPath: sroot + "/d/b", RelPath: []string{"d", "b"}, Size: 1},
+	}
+	verifFSBegin()
+	snd := newTransfer(zzSink15{}, nil, false, nil)
+	snd.transferConfig.Protocol = 4
+	snd.transferConfig.Directory = true
+	arch := snd.archiveSourceFiles(files)
+	rd, err := snd.newArchiveReader(arch[0])
+	verifAssert(err == nil, "newArchiveReader error")
+	rsize := verifNondetRange(1, verifBound("R"))
+	total := 0
+	var rerr error
+	for k := 0; k < 100000; k++ {
+		p := make([]byte, rsize)
+		m, err := rd.Read(p)
+		total += m
+		if err != nil {
+			rerr = err
+			break
+		}
+	}
+	rd.Close()
+	if delta < 0 {
+		verifAssert(rerr != io.EOF, "shrunken source file not reported: stream ended as if complete")
+		verifAssert(rerr != nil, "shrunken source file not reported")
+		verifReach("shrunk-reported")
+	} else {
+		verifAssert(rerr == io.EOF, "reader error on a file that did not shrink")
+		verifAssert(int64(total) == rd.getSize(), "announced size differs from the bytes produced")
+		verifReach("complete")
+	}
 }
